@@ -160,8 +160,18 @@ def execute(sc, ctx):
     if 0 in cps:
         checkpoint(node.k, ctx, "initial")
 
+    # Read schedule: the monitor evaluates every member of every choice, which fills all caches.  In "sparse" runs it only
+    # looks every k-th operation (and at the end), so that between two looks the caches hold exactly what the history's
+    # own reads put there - e.g. a choice whose selection was read while no member value ever was.
+    sparse = bool(sc.get("sparse", sc.get("hash_salt", 0) & 4))
+    every = 3 + (sc.get("hash_salt", 0) >> 3) % 4
+    ctx.counters["probe:sparse-monitor" if sparse else "probe:full-monitor"] += 1
+    last = len(sc["ops"]) - 1
+
     def after(i, op):
         model.apply(op, sc["hand"])
+        if sparse and i != last and (i + 1) % every and (i + 1) not in cps:
+            return
         vecs.append(monitor(node.k, ctx, f"after op {i} {op[:3]}", model))
         if op[0] == "load_hand":
             ctx.counters["probe:load-handwritten"] += 1
